@@ -143,3 +143,35 @@ func TestKF_C14_ReadOnlyLegacy(t *testing.T) {
 
 var _ = json.Marshal
 var _ = time.Now
+
+// Finding 27: a manifest pushed with the exact bytes of a referrers listing shares digest, index entry and blob with the
+// stored response; deleting it by digest deletes the response, and the subject's referrers disappear.
+func TestKF_C07_ResponseCopyDeleted(t *testing.T) {
+	st := newStats("TestKF_C07_ResponseCopyDeleted", "C07", "reproducer")
+	root := mkTemp("kf")
+	defer os.RemoveAll(root)
+	h := newServerForKF(root)
+	defer h.Close()
+	cfg := []byte("{}")
+	cd := dig("sha256", cfg)
+	if r := doReq(h, "POST", "/v2/r/blobs/uploads/?digest="+cd, cfg, nil); r.code != 201 {
+		t.Fatalf("setup: %d", r.code)
+	}
+	subject := dig("sha256", []byte("some subject"))
+	art, _ := buildImage(mtImage, mtConfig, cd, 2, nil, nil, &mdesc{MediaType: mtImage, Digest: subject, Size: 10}, "application/vnd.x.a", nil)
+	ad := dig("sha256", art)
+	if r := doReq(h, "PUT", "/v2/r/manifests/"+ad, art, hdr("Content-Type", mtImage)); r.code != 201 {
+		t.Fatalf("setup artifact: %d", r.code)
+	}
+	l := doReq(h, "GET", "/v2/r/referrers/"+subject, nil, nil)
+	ld := dig("sha256", l.body)
+	p := doReq(h, "PUT", "/v2/r/manifests/"+ld, l.body, hdr("Content-Type", mtIndex))
+	d := doReq(h, "DELETE", "/v2/r/manifests/"+ld, nil, nil)
+	g := doReq(h, "GET", "/v2/r/referrers/"+subject, nil, nil)
+	var idx mbody
+	_ = json.Unmarshal(g.body, &idx)
+	if p.code == 201 && d.code == 202 && len(idx.Manifests) == 0 {
+		Fail(kfT{t}, st, "response-copy-deleted", fmt.Sprintf("the referrers of %s are empty after a copy of the listing was pushed and deleted by digest; the artifact %s is still present", short(subject), short(ad)),
+			[]string{"PUT artifact A (subject S) -> 201", "GET referrers/S -> listing L [A]", "PUT manifests/<digest of L> with the bytes of L as an OCI index -> 201", "DELETE manifests/<digest of L> -> 202", "GET referrers/S -> []"}, nil)
+	}
+}
